@@ -54,6 +54,16 @@ func parseExprString(src string) (string, error) {
 // exprShape renders the parsed tree fully parenthesised, ignoring the parentheses that were written
 // in the source (ParenExpr nodes): what remains is exactly how the parser grouped the operators.
 func exprShape(e parser.Expr) string {
+	if e == nil {
+		return "<nil>"
+	}
+	list := func(l []parser.Expr) string {
+		var parts []string
+		for _, x := range l {
+			parts = append(parts, exprShape(x))
+		}
+		return strings.Join(parts, ",")
+	}
 	switch e := e.(type) {
 	case *parser.ParenExpr:
 		return exprShape(e.Expr)
@@ -63,8 +73,102 @@ func exprShape(e parser.Expr) string {
 		return "(" + e.Token.String() + exprShape(e.Expr) + ")"
 	case *parser.CondExpr:
 		return "(" + exprShape(e.Cond) + "?" + exprShape(e.True) + ":" + exprShape(e.False) + ")"
+	case *parser.CallExpr:
+		sp := ""
+		if e.Ellipsis.IsValid() {
+			sp = "..."
+		}
+		return "call{" + exprShape(e.Func) + "|" + list(e.Args) + sp + "}"
+	case *parser.IndexExpr:
+		return "index{" + exprShape(e.Expr) + "|" + exprShape(e.Index) + "}"
+	case *parser.SliceExpr:
+		return "slice{" + exprShape(e.Expr) + "|" + exprShape(e.Low) + "|" + exprShape(e.High) + "}"
+	case *parser.SelectorExpr:
+		return "sel{" + exprShape(e.Expr) + "|" + exprShape(e.Sel) + "}"
+	case *parser.ArrayLit:
+		return "arr{" + list(e.Elements) + "}"
+	case *parser.MapLit:
+		var parts []string
+		for _, el := range e.Elements {
+			parts = append(parts, el.Key+":"+exprShape(el.Value))
+		}
+		return "map{" + strings.Join(parts, ",") + "}"
+	case *parser.ErrorExpr:
+		return "error{" + exprShape(e.Expr) + "}"
+	case *parser.ImmutableExpr:
+		return "immutable{" + exprShape(e.Expr) + "}"
+	case *parser.FuncLit:
+		return "func{" + e.Type.String() + "|" + stmtShape(e.Body) + "}"
 	}
 	return e.String()
+}
+
+// stmtShape: the same for statements (every expression position through exprShape)
+func stmtShape(st parser.Stmt) string {
+	if st == nil {
+		return "<nil>"
+	}
+	list := func(l []parser.Expr) string {
+		var parts []string
+		for _, x := range l {
+			parts = append(parts, exprShape(x))
+		}
+		return strings.Join(parts, ",")
+	}
+	switch st := st.(type) {
+	case *parser.AssignStmt:
+		return "assign{" + list(st.LHS) + st.Token.String() + list(st.RHS) + "}"
+	case *parser.ExprStmt:
+		return "expr{" + exprShape(st.Expr) + "}"
+	case *parser.ReturnStmt:
+		return "return{" + exprShape(st.Result) + "}"
+	case *parser.ExportStmt:
+		return "export{" + exprShape(st.Result) + "}"
+	case *parser.IncDecStmt:
+		return "incdec{" + exprShape(st.Expr) + st.Token.String() + "}"
+	case *parser.BlockStmt:
+		if st == nil {
+			return "block{}"
+		}
+		var parts []string
+		for _, x := range st.Stmts {
+			parts = append(parts, stmtShape(x))
+		}
+		return "block{" + strings.Join(parts, ";") + "}"
+	case *parser.IfStmt:
+		return "if{" + stmtShape(st.Init) + "|" + exprShape(st.Cond) + "|" + stmtShape(st.Body) + "|" + stmtShape(st.Else) + "}"
+	case *parser.ForStmt:
+		return "for{" + stmtShape(st.Init) + "|" + exprShape(st.Cond) + "|" + stmtShape(st.Post) + "|" + stmtShape(st.Body) + "}"
+	case *parser.ForInStmt:
+		return "forin{" + st.Key.Name + "," + st.Value.Name + "|" + exprShape(st.Iterable) + "|" + stmtShape(st.Body) + "}"
+	}
+	return st.String()
+}
+
+func fileShape(src string) (string, error) {
+	fs := parser.NewFileSet()
+	f := fs.AddFile("t", -1, len(src))
+	p := parser.NewParser(f, []byte(src), nil)
+	file, err := p.ParseFile()
+	if err != nil {
+		return "", err
+	}
+	var parts []string
+	for _, st := range file.Stmts {
+		parts = append(parts, stmtShape(st))
+	}
+	return strings.Join(parts, ";"), nil
+}
+
+// statement and expression contexts an expression can stand in: the documented grouping must be the same in all of them
+var exprContexts = map[string]string{
+	"define": "r := %s", "assign": "r = %s", "add-assign": "r += %s", "shl-assign": "r <<= %s", "andnot-assign": "r &^= %s",
+	"return": "f := func() { return %s }", "export": "export %s", "expr-stmt": "g(%s)", "call-arg": "r := g(1, %s, 2)", "spread-arg": "r := g(%s ...)",
+	"index": "r := a[%s]", "slice-low": "r := a[%s:]", "slice-high": "r := a[:%s]", "array-elem": "r := [1, %s]", "map-value": "r := {k: %s}",
+	"if-cond": "if %s { }", "if-init": "if q := %s; q { }", "for-cond": "for %s { }", "for-post": "for i := 0; i < 1; i += %s { }", "for-init": "for i := %s; i < 1; i++ { }",
+	"forin": "for x in %s { }", "ternary-cond": "r := %s ? 1 : 2", "ternary-true": "r := c ? %s : 2", "ternary-false": "r := c ? 1 : %s",
+	"error": "r := error(%s)", "immutable": "r := immutable(%s)", "paren-call": "r := (%s)(1)", "sel-assign": "a.b = %s", "index-assign": "a[0] += %s",
+	"binary-left": "r := %s + z", "unary": "r := -%s", "not": "r := !%s",
 }
 
 var tokText = map[string]string{"ident": "abc", "int": "12", "float": "1.5", "char": "'c'", "string": "\"s\"", "rawstring": "`r`",
@@ -166,6 +270,23 @@ func syntaxHandle(raw []byte) map[string]interface{} {
 			return map[string]interface{}{"err": err.Error()}
 		}
 		return map[string]interface{}{"got": strings.ReplaceAll(got, " ", ""), "want": strings.Join(c.Full, "")}
+	case "treectx":
+		// the same operator tree, minimally and fully parenthesised, in a statement/expression context
+		tmpl, ok := exprContexts[c.Tc]
+		if !ok {
+			return map[string]interface{}{"error": "unknown context " + c.Tc}
+		}
+		minSrc := fmt.Sprintf(tmpl, strings.Join(c.Min, " "))
+		fullSrc := fmt.Sprintf(tmpl, strings.Join(c.Full, " "))
+		got, err := fileShape(minSrc)
+		if err != nil {
+			return map[string]interface{}{"err": err.Error(), "src": minSrc}
+		}
+		want, err := fileShape(fullSrc)
+		if err != nil {
+			return map[string]interface{}{"skip": "fully parenthesised form does not parse: " + err.Error(), "src": fullSrc}
+		}
+		return map[string]interface{}{"got": got, "want": want, "src": minSrc}
 	case "semi":
 		src := tokText[c.Tc] + gapText[c.Gap]
 		if !strings.HasSuffix(c.Gap, "eof") {
